@@ -132,7 +132,9 @@ func ExpectedUpload(cfg *telemetry.UploadConfig, x float64, files []LocalFile) (
 	sums := map[key]int64{}
 	approvedBuilds = map[Build]bool{}
 	for _, f := range files {
-		if !BuildApproved(cfg, f.Build, false) {
+		// C01's statement names path, version and Go version; the configuration's GOOS and GOARCH lists
+		// belong to the documented semantics as well (C11), so a build outside them is not approved.
+		if !BuildApproved(cfg, f.Build, true) {
 			continue
 		}
 		approvedBuilds[f.Build] = true
